@@ -34,6 +34,7 @@ def check(run):
         run.guard("C13.5.lookup", cfg, lambda: rule_lookup(run, F, cfg))
         run.guard("C13.6.priority-suffix", cfg, lambda: rule_priority(run, F, cfg))
         run.guard("C13.6.priority-suffix", cfg + "/slices", lambda: rule_priority_slices(run, F, cfg))
+        run.guard("C13.5.lookup", cfg + "/registration", lambda: rule_registration_atomic(run, F, cfg))
         b = run.borrow("C06", why="redirect rules added one by one must reach the same lists as in a batch build")
         run.guard("C13.via.C06.4.batch-incremental", cfg, lambda: _C06.rule_routing(b, F, cfg))
         b2 = run.borrow("C05", only=r"field:(modifier_option|mask)\b", why="redirect rules with different targets must not be fused")
@@ -331,3 +332,18 @@ def rule_priority_slices(run, F, cfg):
         run.ob("C13.6.priority-suffix", "higher-priority-wins", len(cmp_) == 1 and cand is not None,
                f"the compared candidate `{cand}` is the priority of the rule at hand and the other operand the best so far",
                config=cfg)
+
+
+def rule_registration_atomic(run, F, cfg):
+    """add_resource registers a resource and its aliases all-or-nothing: every name collision check runs before the
+    first insertion, so a rejected resource leaves no alias behind that points at nothing (a later resource with
+    that name would be refused, or served under an alias it never declared)"""
+    a = F.fn("resources::resource_storage::ResourceStorage::add_resource")
+    run.touched(a)
+    inserts = [b for b, t in a.calls(r"^std::collections::HashMap::insert$")]
+    errs = [b for b, i, st in a.statements()
+            if st["k"] == "assign" and st["rv"]["k"] == "agg" and st["rv"].get("variant") == "NameAlreadyAdded"]
+    late = [(i_, e) for i_ in inserts for e in errs if e in a.reachable_from(i_)]
+    run.ob("C13.5.lookup", "registration-all-or-nothing", bool(inserts) and bool(errs) and not late,
+           f"no NameAlreadyAdded rejection is reachable once add_resource has inserted anything ({len(inserts)} insertions, "
+           f"{len(errs)} rejections, rejections reachable after an insertion: {late})", site=a.loc(0), config=cfg)
